@@ -249,6 +249,11 @@ impl DateTime {
                 "RFC 3339 string cannot be shorter than 20 chars".to_string(),
             ));
         }
+        if !string.is_ascii() {
+            return Err(create_invalid_format(
+                "RFC 3339 string can only contain ASCII chars".to_string(),
+            ));
+        }
 
         let year = string[0..4].parse::<i32>().map_err(|_| {
             create_invalid_format("Failed parsing year from RFC 3339 string".to_string())
@@ -269,22 +274,18 @@ impl DateTime {
             create_invalid_format("Failed parsing second from RFC 3339 string".to_string())
         })?;
 
-        let (nanos, offset) = if string.chars().nth(19).unwrap() == '.' {
-            let nanos_string = string[20..]
+        let (nanos, offset) = if &string[19..20] == "." {
+            let fraction_length = string[20..]
                 .chars()
-                .take_while(|&char| char != 'Z' && char != '+' && char != '-')
-                .collect::<String>();
-            let nanos = nanos_string.parse::<u64>().map_err(|_| {
+                .take_while(|char| char.is_ascii_digit())
+                .count();
+            // Only the first 9 digits (nanoseconds) are significant
+            let digits = &string[20..20 + fraction_length.min(9)];
+            let nanos = digits.parse::<u64>().map_err(|_| {
                 create_invalid_format("Failed parsing subseconds from RFC 3339 string".to_string())
-            })? * (1000000000 / 10_u64.pow(nanos_string.len() as u32));
+            })? * 10_u64.pow(9 - digits.len() as u32);
 
-            let offset_substring = string[20..]
-                .chars()
-                .position(|char| char == 'Z' || char == '+' || char == '-')
-                .ok_or_else(|| {
-                    create_invalid_format("Failed parsing offset from RFC 3339 string".to_string())
-                })?;
-            let offset = parse_offset(&string[20 + offset_substring..])?;
+            let offset = parse_offset(&string[20 + fraction_length..])?;
 
             (nanos, offset)
         } else {
